@@ -37,7 +37,7 @@ CHECKS = {
          "Every workload word of length 3|4 (every fault position) and every shorter word (fault in the last operation) x 4|6 configurations; one fault per run at each individual create / write / fsync / unlink (EIO; ENOSPC for writes and creates; short writes as a benign deviation that must change nothing). The failed operation must return Err, nothing may panic or abort, every other operation must succeed, and reads in the running process and after a restart must equal the map model with the failed operation applied or not.",
          "One transient fault per run; faulted runs execute in forked children so that a process abort is an observation.", "DESIGN.md §5 E2, §6 C20"),
  "C04": ("e3 sched", "model_checking", "stateless model checking of the implementation: preemption-bounded exhaustive DFS over schedules of real threads under a baton scheduler, brute-force linearizability oracle",
-         "15 harnesses of 2-3 real threads with 1-2 Handle operations each on one real store (forced key collisions; entries below and above the 8 KiB write buffer; rollover inside a put; merges with and without rollover; one and two pooled readers; reader cache 0). Every schedule with <= 2 (quick) / <= 3 (thorough) preemptions is executed; scheduling points are every interposed system call on a store file and every hook point before an access to shared state. Each execution must finish without panic, error, deadlock or livelock, its call/return history must be linearizable against the map model, the final reads must agree with a valid linearization and every reader must be back in the pool.",
+         "20 harnesses of 2-3 real threads with 1-2 Handle operations each on one real store (forced key collisions; entries below and above the 8 KiB write buffer; rollover inside a put; merges with and without rollover; one and two pooled readers; reader cache 0). Every schedule with <= 2 (quick) / <= 3 (thorough) preemptions — one more for the two-thread harnesses — is executed; scheduling points are every interposed system call on a store file and every hook point before an access to shared state. Each execution must finish without panic, error, deadlock or livelock, its call/return history must be linearizable against the map model, the final reads must agree with a valid linearization and every reader must be back in the pool.",
          "Sequentially consistent at point granularity; lock-free primitives (parking_lot, dashmap, crossbeam) trusted; conservative shadow-lock rule for merge vs. readers; 2-3 threads, <= 2 operations each.", "DESIGN.md §5 E3, §6 C04"),
  "C07": ("e4 resp", "model_checking", "bounded-exhaustive input enumeration against the real Frame::check / Frame::parse with an independent exact decoder as oracle; abort-prone inputs evaluated in forked children",
          "ALL byte strings of length <= 6 (quick) / <= 7 (thorough) over 12 symbols (+ - : $ * 0 1 9 CR LF a 0xFF), a number grid (integer / bulk length / array length carriers, top level and nested after fillers of 0..40 bytes so the digits cross every buffer offset, three signs, 1..21 digits, values around i64::MIN/MAX, 10^19, 2^64), every truncation point of every grid message and request, nesting depths up to 10^6 and declared lengths up to 2^64-1 on 8 MiB and 2 MiB stacks in forked children. No panic / abort; accepted frames and lengths equal the independent decoder's; check length = parse length; no strict prefix accepted as the same frame.",
